@@ -310,18 +310,29 @@ def run_primes(m, case, query, primes):
 
 
 def prime_twin_relisted(case):
-    """another live instance: the same graph with the LNLs listed in reverse order and the same parameters, queried
-    first (results of the model under test must not depend on what other instances computed, C09/C15)"""
+    """other live instances: the same graph with the LNLs listed in another order (reversed; rotated by one; a leaf moved
+    to the front) and the same parameters, queried first (results of the model under test must not depend on what
+    other instances computed, C09/C15).  Which relisting leaves the arc enumeration -- and with it a graph hash --
+    unchanged depends on the graph, hence several twins."""
     g = case["graph"]
     tum = [e for e in g["entries"] if e[0] == "tumor"]
     lnl = [e for e in g["entries"] if e[0] == "lnl"]
     if len(lnl) < 2:
         return
-    twin = dict(case)
-    twin["graph"] = {"base": g["base"], "entries": tum + lnl[::-1]}
-    try:
-        t = build_uni(twin)
-        t.transition_matrix()
-        t.state_dist_evo()
-    except Exception:  # noqa: BLE001
-        pass
+    orders = [lnl[::-1], lnl[1:] + lnl[:1]]
+    leaves = [e for e in lnl if not e[2]]
+    if leaves:
+        orders.append([leaves[-1]] + [e for e in lnl if e is not leaves[-1]])
+    seen = [lnl]
+    for order in orders:
+        if order in seen:
+            continue
+        seen.append(order)
+        twin = dict(case)
+        twin["graph"] = {"base": g["base"], "entries": tum + order}
+        try:
+            t = build_uni(twin)
+            t.transition_matrix()
+            t.state_dist_evo()
+        except Exception:  # noqa: BLE001
+            pass
